@@ -1,9 +1,20 @@
 (* C18 — pickle round-trips preserve every answer, with or without a data directory.
-   Statement-only file for the storage state machine (Store/Store.v): a directory is a list of entries,
-   an index file is named by the number of entries at creation, the pickle state is (metadata, filename).
-   PARTIAL: actual file contents, np.memmap, pickle bytes and a fresh interpreter are exercised by the check
-   (subprocess round trips, several indexes per directory), not modelled. *)
-From SA Require Import Base.Prelude Codec.Codec Index.Index Store.Store Store.Store_Proofs.
+   Statement-only file.
+   Part 1: the storage state machine (Store/Store.v): a directory is a list of entries, an index file is named by the
+   number of entries at creation, the pickle state of the postings is (metadata, filename).
+   Part 2 (further down): what pickle stores for an ARRAY OR ANY VIEW of it, in memory or with a data directory, and
+   what loading rebuilds (Store/Store_View.v): rows vector, dictionary, lengths, statistics by value; the ROOT postings
+   object by value (ArrayDict) or as (metadata, filename) (MemoryMappedArrays); the handle's base either as that same
+   object (avoid_copies views carry the parent's FULL postings) or as its own sliced dict by value.
+   Part 3: the caches that are pickled along (FilteredPosns.sliced, docfreq_cache, termfreq_cache, the root's caches
+   through df_source) on the query-time state machine of View/Purity.v.
+   PARTIAL: actual file contents, np.memmap, pickle bytes, the tokenizer (pickled by reference) and a fresh interpreter
+   are exercised by the check (subprocess round trips, several indexes per directory), not modelled; deleting files from
+   the directory is outside the model (names are the NUMBER of entries). *)
+From Coq Require Import ZArith.
+From SA Require Import Base.Prelude Codec.Codec Index.Index Index.Index_Spec View.View View.View_Spec View.View_Proofs View.Purity View.Purity_Proofs
+  View.View_Phrase2 View.Purity_Gen View.Purity_Indexed Rebuild.Rebuild
+  Store.Store Store.Store_Proofs Store.Store_View Store.Store_View_Proofs Store.Store_View_Proofs2.
 Open Scope N_scope.
 
 (* no file is ever overwritten: a new index file is appended under a fresh name, and the naming invariant is kept *)
@@ -45,3 +56,171 @@ Print Assumptions C18_roundtrip.
 Print Assumptions C18_isolation.
 Print Assumptions C18_inv_empty.
 Print Assumptions C18_inv_foreign_file.
+
+(* ================= Part 2: arrays AND views, in memory AND with a data directory (Store/Store_View.v) =================
+   v      : any chain of selections [keys] from the fresh index of [docs] (either avoid_copies mode; keys in any order,
+            repeats allowed) -- keys = [] is the array itself;
+   d0     : the directory before indexing, ANY state with the naming invariant (older indexes, unrelated files);
+   use_dir: data_dir given or not (store_index: the postings go to a new file unless there is no term at all);
+   d      : ANY later state of the directory (dir_later: further indexes, further unrelated files);
+   shares_root avoid keys : whether the handle's base IS the root postings object (then pickle stores it once). *)
+
+(* the unpickled array is literally the original: every field, hence every answer and every further selection *)
+Theorem C18_view_roundtrip : forall docs bs ix avoid keys v d0 use_dir d1 res d,
+  wf_docs docs -> index false bs docs = AOk ix -> select_chain (of_index ix avoid) keys = AOk v ->
+  names_below_count d0 -> store_index d0 use_dir ix = (d1, res) -> dir_later d1 d ->
+  unpickle_arr d (pickle_arr res (shares_root avoid keys) v) = Some v.
+Proof. exact view_pickle_roundtrip. Qed.
+Print Assumptions C18_view_roundtrip.
+
+(* ... and such views exist for all valid keys (non-vacuity for every corpus / chain / directory) *)
+Theorem C18_view_roundtrip_exists : forall docs bs ix avoid keys d0 use_dir d1 res d,
+  wf_docs docs -> index false bs docs = AOk ix -> valid_keys (length docs) keys ->
+  names_below_count d0 -> store_index d0 use_dir ix = (d1, res) -> dir_later d1 d ->
+  exists v, select_chain (of_index ix avoid) keys = AOk v /\
+            unpickle_arr d (pickle_arr res (shares_root avoid keys) v) = Some v.
+Proof. exact view_pickle_total. Qed.
+Print Assumptions C18_view_roundtrip_exists.
+
+(* spelled out: term frequencies (any position range), document frequency, positions, phrase frequencies (any phrase, any
+   range), the statistics handed to a similarity, BM25 scores, lengths, corpus statistics, rows -- and further selections *)
+Theorem C18_view_answers : forall docs bs ix avoid keys v d0 use_dir d1 res d,
+  wf_docs docs -> index false bs docs = AOk ix -> select_chain (of_index ix avoid) keys = AOk v ->
+  names_below_count d0 -> store_index d0 use_dir ix = (d1, res) -> dir_later d1 d ->
+  exists v', unpickle_arr d (pickle_arr res (shares_root avoid keys) v) = Some v' /\
+    ((forall t lo hi, v_termfreqs v' t lo hi = v_termfreqs v t lo hi) /\
+     (forall t, v_docfreq v' t = v_docfreq v t) /\
+     (forall t, v_positions v' t = v_positions v t) /\
+     (forall ph lo hi, v_phrase_freqs v' ph lo hi = v_phrase_freqs v ph lo hi) /\
+     (forall ts lo hi, v_score_args v' ts lo hi = v_score_args v ts lo hi) /\
+     (forall ts idf k1 b, v_score_bm25 v' ts idf k1 b = v_score_bm25 v ts idf k1 b) /\
+     v_doclengths v' = v_doclengths v /\ a_total v' = a_total v /\ a_n v' = a_n v /\
+     a_rows v' = a_rows v /\ a_subset v' = a_subset v /\ a_terms v' = a_terms v) /\
+    forall more, select_chain v' more = select_chain v more.
+Proof. exact view_pickle_answers. Qed.
+Print Assumptions C18_view_answers.
+
+(* without a data directory nothing outside the pickle is read: it loads in every directory state *)
+Theorem C18_in_memory_roundtrip : forall docs bs ix avoid keys v d,
+  wf_docs docs -> index false bs docs = AOk ix -> select_chain (of_index ix avoid) keys = AOk v ->
+  unpickle_arr d (pickle_arr InMemory (shares_root avoid keys) v) = Some v.
+Proof. exact in_memory_pickle_roundtrip. Qed.
+Print Assumptions C18_in_memory_roundtrip.
+
+(* ANY index record (not only a fresh one; the list that models the postings dict may even repeat a term): the unpickled
+   array agrees with the original on every field except the two postings tables, which agree term by term (same_view),
+   and that is enough for every answer *)
+Theorem C18_view_roundtrip_any_index : forall ix avoid keys v d0 use_dir d1 res d,
+  select_chain (of_index ix avoid) keys = AOk v ->
+  names_below_count d0 -> store_index d0 use_dir ix = (d1, res) -> dir_later d1 d ->
+  exists v', unpickle_arr d (pickle_arr res (shares_root avoid keys) v) = Some v' /\ same_view v v' /\ same_view_answers v v'.
+Proof. exact view_pickle_any_index. Qed.
+Print Assumptions C18_view_roundtrip_any_index.
+
+(* what same_view gives: every query of View/View.v, and element access arr[i] *)
+Theorem C18_same_view_same_answers : forall v v', same_view v v' -> same_view_answers v v'.
+Proof. exact same_view_same_answers. Qed.
+Print Assumptions C18_same_view_same_answers.
+Theorem C18_same_view_element_access : forall v v', same_view v v' -> elements_of v' = elements_of v.
+Proof. exact sv_elements. Qed.
+Print Assumptions C18_same_view_element_access.
+
+(* the flag given to pickle_arr is the object identity tracked along the chain: filter() keeps the root object, slice()
+   does not, and every selection result has avoid_copies = True *)
+Theorem C18_shares_root_tracks_identity : forall ix avoid keys,
+  select_chain_sh (of_index ix avoid) true keys =
+  ado v <- select_chain (of_index ix avoid) keys; AOk (v, shares_root avoid keys).
+Proof. exact select_chain_sh_of_index. Qed.
+Print Assumptions C18_shares_root_tracks_identity.
+
+(* every view keeps the root's FULL postings as its document-frequency source, and reads through them when it shares them *)
+Theorem C18_view_keeps_root_postings : forall ix avoid keys v, select_chain (of_index ix avoid) keys = AOk v ->
+  p_df_root (a_posns v) = ix_posts ix /\
+  (shares_root avoid keys = true -> handle_base (p_handle (a_posns v)) = ix_posts ix).
+Proof. exact chain_root. Qed.
+Print Assumptions C18_view_keeps_root_postings.
+
+(* later states of the directory keep the naming invariant and the content of every existing file *)
+Theorem C18_directory_only_grows : forall d d', names_below_count d -> dir_later d d' ->
+  names_below_count d' /\ forall k, dir_read d k <> None -> dir_read d' k = dir_read d k.
+Proof. exact dir_later_keeps. Qed.
+Print Assumptions C18_directory_only_grows.
+
+(* the postings dictionary of a fresh index has distinct keys (what makes the ArrayDict / file round trip literal) *)
+Theorem C18_fresh_index_distinct_terms : forall docs bs ix, wf_docs docs -> index false bs docs = AOk ix ->
+  NoDup (map fst (ix_posts ix)).
+Proof. exact index_posts_nodup. Qed.
+Print Assumptions C18_fresh_index_distinct_terms.
+
+Example C18_view_4_2_0 : forall avoid use_dir,
+  match index false 2 ex_docs5, index false 100 [[7;8];[8]], index false 100 [[9]] with
+  | AOk ix, AOk ix2, AOk ix3 =>
+    match select_chain (of_index ix avoid) [[4;2;0]] with
+    | AOk v =>
+       let '(d1, res) := store_index ex_d0 use_dir ix in       (* ex_d0: an unrelated file and an older index *)
+       let '(d2, _) := store_index d1 true ix2 in              (* two more indexes and an unrelated file afterwards *)
+       let d3 := d2 ++ [(None, [5])] in
+       let '(d4, _) := store_index d3 true ix3 in
+       let pk := pickle_arr res (shares_root avoid [[4;2;0]]) v in
+       (match pk_root_store pk with
+        | PkMapped m => use_dir = true /\ mm_file m = 2
+        | PkArrayDict ad => use_dir = false /\ length (ad_data ad) = 8%nat
+        end) /\
+       (match pk_base_store pk with PkSameAsRoot => avoid = true | PkDict _ => avoid = false end) /\
+       pk_rows pk = [4;2;0] /\
+       unpickle_arr d4 pk = Some v /\
+       (use_dir = true -> unpickle_arr ex_d0 pk = None) /\
+       v_termfreqs v 1 None None = AOk [1;0;2] /\ v_phrase_freqs v [1;2] None None = AOk [0;0;1] /\
+       v_docfreq v 1 = AOk 3 /\ v_positions v 1 = AOk [[1]; []; [0;2]]
+    | _ => False end
+  | _, _, _ => False end.
+Proof. intros [|] [|]; vm_compute; repeat split; try reflexivity; intro H; discriminate H. Qed.
+
+(* ================= Part 3: the pickled caches (View/Purity.v machine; avoid_copies arrays) =================
+   p : the pool reached from a freshly indexed array by ANY history [ops] (queries that fill docfreq_cache / termfreq_cache /
+   FilteredPosns.sliced, selections, copies, warm); a : any array of it.  Its pickle holds the array, its PosnBitArray with
+   caches and installed wrapper, the root PosnBitArray with caches (df_source) and one postings object. *)
+
+(* the pool of the loading process: one array, equal to the pickled one, and the purity invariant (cache soundness) holds *)
+Theorem C18_loaded_pool_invariant : forall docs bs ix cg ops outs p ai a d0 use_dir d1 res d,
+  wf_docs docs -> docs <> [] -> index false bs docs = AOk ix ->
+  run (init_pool ix cg) ops = (outs, p) -> nth_error (arrays p) ai = Some a ->
+  names_below_count d0 -> store_index d0 use_dir ix = (d1, res) -> dir_later d1 d ->
+  exists p' pid, unpickle_pool_array d (pickle_pool_array res p a) = Some p' /\
+                 arrays p' = [{| pa_arr := pa_arr a; pa_pid := pid |}] /\
+                 InvR (good_posts_of docs) (rows_in docs) p'.
+Proof. exact pool_pickle_roundtrip. Qed.
+Print Assumptions C18_loaded_pool_invariant.
+
+(* with the caches it was pickled with, and after ANY further history of the loading process, the loaded array answers
+   every query q like the original array does in the pickling process *)
+Theorem C18_pickled_caches_do_not_matter : forall docs bs ix cg ops outs p a d0 use_dir d1 res d q,
+  wf_docs docs -> docs <> [] -> index false bs docs = AOk ix ->
+  run (init_pool ix cg) ops = (outs, p) -> nth_error (arrays p) (op_array q) = Some a ->
+  names_below_count d0 -> store_index d0 use_dir ix = (d1, res) -> dir_later d1 d ->
+  pure_answer p q <> None ->
+  exists p', unpickle_pool_array d (pickle_pool_array res p a) = Some p' /\
+    forall ops2 outs2 p2, run p' ops2 = (outs2, p2) -> fst (step p2 (retarget q)) = fst (step p q).
+Proof. exact pickled_caches_do_not_matter. Qed.
+Print Assumptions C18_pickled_caches_do_not_matter.
+
+Example C18_caches_travel_with_the_pickle : forall use_dir,
+  match index false 2 ex_docs5, index false 100 [[7;8];[8]] with
+  | AOk ix, AOk ix2 =>
+      let '(d1, res) := store_index ex_d0 use_dir ix in
+      let '(d2, _) := store_index d1 true ix2 in
+      let '(_, p) := run (init_pool ix 0) ex_before in
+      match nth_error (arrays p) 1 with
+      | Some a =>
+          let k := pickle_pool_array res p a in
+          (match pb_wrapper (pa_self k) with Some (ids, sl) => ids = [0;2;4] /\ map fst sl <> [] | None => False end) /\
+          (match pa_dfsrc k with Some kr => map fst (pb_dfcache kr) = [1] /\ map fst (pb_tfcache kr) = [1] | None => False end) /\
+          match unpickle_pool_array d2 k with
+          | Some p' =>
+              fst (step p' (OTf 0 1 None None)) = fst (step p (OTf 1 1 None None)) /\
+              fst (step p' (OTf 0 1 None None)) = RVec (AOk [1;0;2]) /\
+              fst (step p' (ODf 0 1)) = RNum (AOk 3)
+          | None => False end
+      | None => False end
+  | _, _ => False end.
+Proof. intros [|]; vm_compute; repeat split; discriminate. Qed.
